@@ -1,2 +1,38 @@
--- driver stub (not built yet)
-def main : IO Unit := pure ()
+import QmcModel.Proto
+import QmcModel.Cutoff
+open Qmc Qmc.Proto
+
+/-
+C12 driver. Input lines (one answer line each):
+  new ising <cutoff>                       → `<cutoff> <len>`            (constructor)
+  new generic <nvars>                      → `<cutoff> <len>`
+  step <site> <prevcut> <prevlen> <n>      → `<newcut> <newlen>`         (rule + container growth)
+  sweep <cutoff> <before bits> <after bits>→ `<isSweepResult> <n after>`
+  setcut <c> <cutoff> <occ bits>           → `<cutoff> <len> <n>`        (`set_cutoff`)
+  equalise <cutoffs> <lens>                → `<cutoffs'> <lens'>`        (tempering preamble)
+-/
+def step (toks : List String) : String :=
+  match toks with
+  | ["new", "ising", c] =>
+    let s := CSampler.newIsing (parseNat c)
+    s!"{s.cutoff} {s.len}"
+  | ["new", "generic", nv] =>
+    let s := CSampler.newGeneric (parseNat nv)
+    s!"{s.cutoff} {s.len}"
+  | ["step", _site, pc, pl, n] =>
+    let pc := parseNat pc
+    s!"{nextCutoff pc (parseNat n)} {growLen (parseNat pl) pc}"
+  | ["sweep", c, before, after] =>
+    let a := parseBits after
+    s!"{showBool (isSweepResult (parseNat c) (parseBits before) a)} {countOcc a}"
+  | ["setcut", c, cut, occ] =>
+    let s := CSampler.setCutoff (parseNat c) { cutoff := parseNat cut, occ := parseBits occ }
+    s!"{s.cutoff} {s.len} {s.n}"
+  | ["equalise", cuts, lens] =>
+    let rs := (parseNats cuts).zip (parseNats lens) |>.map fun (c, l) =>
+      ({ cutoff := c, occ := List.replicate l false } : CSampler)
+    let rs' := equalise rs
+    s!"{showNats (rs'.map (·.cutoff))} {showNats (rs'.map (·.len))}"
+  | _ => "bad-op"
+
+def main : IO Unit := run step
